@@ -200,7 +200,7 @@ IfaceShape(j, seed) ==
    signals |-> [i \in 1..NSignals(j) |-> Signal(j, i - 1, seed)]]
 
 (* ---- registration trees: which interface lives at which object path ---- *)
-(* Tree 0 is the canonical one (every interface once; nesting, a shared path, the root); trees      *)
+(* Tree 0 is the canonical one (every interface once; nesting, shared paths); trees                  *)
 (* t > 0 place pseudo-randomly chosen subsets on a small pool of paths.                             *)
 (* Paths are sequences of segments (TLA+ strings cannot be split); PathStr gives the wire form.     *)
 RECURSIVE PathStr(_)
@@ -208,15 +208,18 @@ PathStr(segs) == IF segs = <<>> THEN "/"
                  ELSE IF Len(segs) = 1 THEN "/" \o segs[1]
                  ELSE PathStr(SubSeq(segs, 1, Len(segs) - 1)) \o "/" \o segs[Len(segs)]
 PathPool == << <<>>, <<"a">>, <<"a", "b">>, <<"a", "b", "c">>, <<"a", "d">>, <<"e">>, <<"e", "f", "g">>, <<"h">> >>
+(* Interfaces with index 1 mod 4 (the ones that may carry comment-breaking docs, see DocFor) live on   *)
+(* a branch of their own: zbus nests the documents of all descendants into a node's document, so an   *)
+(* ill-formed document spoils those of all its ancestors.                                             *)
 Tree0Segs(j) ==
   CASE j % 4 = 0 -> <<"verif", "o" \o ToString(j)>>
-    [] j % 4 = 1 -> <<"verif", "o" \o ToString(j - 1), "sub">>
+    [] j % 4 = 1 -> <<"quirk", "q" \o ToString(j)>>
     [] j % 4 = 2 -> <<"verif", "o" \o ToString(j - 2)>>
-    [] OTHER     -> <<"verif", "deep", "x", "n" \o ToString(j)>>
+    [] OTHER     -> <<"verif", "o" \o ToString(j - 3), "sub", "n" \o ToString(j)>>
 Reg(segs, k) == [path |-> PathStr(segs), segs |-> segs, iface |-> k]
 TreeRegs(t, n) ==
   IF t = 0 THEN [j \in 1..n |-> Reg(Tree0Segs(j - 1), j - 1)]
-  ELSE LET chosen == SelectSeq([j \in 1..n |-> j - 1], LAMBDA k : (k + t) % 3 # 0 /\ (k * 5 + t) % 7 < 4) IN
+  ELSE LET chosen == SelectSeq([j \in 1..n |-> j - 1], LAMBDA k : (k + t) % 3 # 0 /\ (k * 5 + t) % 7 < 4 /\ (k % 4 # 1 \/ t % 4 = 0)) IN
        [i \in 1..Len(chosen) |-> Reg(Pick(PathPool, chosen[i] * t + chosen[i] + t), chosen[i])]
 
 RECURSIVE SetToSeq(_)
